@@ -4,59 +4,401 @@ import (
 	"bytes"
 	"fmt"
 	"go/ast"
+	"go/parser"
 	"go/printer"
 	"go/token"
+	"os"
+	"path/filepath"
+	"regexp"
+	"sort"
 	"strconv"
 	"strings"
 )
 
-// Gen/Limits.lean: the ordered statements of the functions that enforce serf's size
-// limits — serf.go UserEvent and Query, event.go checkResponseSize /
-// respondWithMessageAndResponse / Respond, query.go relayResponse — each classified as
+// Gen/Limits.lean: the size-limit skeleton of serf.go UserEvent and Query, event.go
+// respondWithMessageAndResponse / Respond, query.go relayResponse.
 //
-//	guard lhs rhs   `if lhs > rhs { return … error … }`
-//	check call      `if err := call; err != nil { return err }`
-//	pure text       a statement without an observable effect (assignment, encoding, lock, error check, other tests)
-//	clock name      a statement whose only side effect is a step of one of the node's Lamport clocks
-//	                (Increment / Witness on s.clock, s.eventClock, s.queryClock), also when the call sits
-//	                inside the message literal; NOT an observable effect in the sense of C33
-//	effect name     a statement that delivers, queues, sends or registers (observable by the application or the network)
-//	ret             a plain return
+// What is extracted is MEANING, not text.  Every function body is reduced to the ordered
+// list of the steps that matter for property C33:
 //
-// Observable effects are recognised by the callee's name; every other call must be on
-// the list of known effect-free callees, otherwise the generator fails (loudly).
+//	guard lhs rhs   the function returns an error iff lhs > rhs (a size comparison); written in any
+//	                equivalent way: `if a > b {return err}`, `if b < a {…}`, `if a <= b {rest} else {return err}`, `!(…)`
+//	test cond       any other `if cond { return error }` (deadline passed, already responded, protocol too old)
+//	clock name      a step of one of the node's Lamport clocks (Increment / Witness), also inside the message literal
+//	effect name     an observable effect: local delivery, broadcast queue, registration, SendToAddress, relay
+//
+// Statements without such a step (assignments, locks, encoding, error propagation, helper
+// calls that do none of the above) are dropped.  Operands and arguments are alpha-normalised:
+// the receiver is `recv`, parameters are p0,p1,…, single-assignment locals are replaced by their
+// definition, other locals are v0,v1,… in order of first definition, package and local constants
+// are replaced by their value, keyed composite literals are sorted by key.  Calls to same-package
+// helpers are followed (two levels): a helper without steps is effect-free, otherwise its steps
+// are spliced in at the call with its parameters substituted.  Guard operands are classified:
+//
+//	sumLenParams [i,…]   len(p_i) + …
+//	lenEnc desc typ fields   len of the result of encodeMessage / encodeRelayMessage; typ = the message type
+//	                     constant, fields = the keyed fields of the encoded message literal (normalised)
+//	cfg field            <recv>[.serf].config.<field>
+//	const n
+//	other text
+//
+// A call that LOOKS like an effect (Send*, Queue*, Broadcast*, handle*, Notify*, relay*, register*, Write*, …) but
+// is not on the list of known effects makes the generator fail; so do channel sends to anything, `go`
+// statements, and size comparisons that are not equivalent to `lhs > rhs`.
 
 var limEffects = map[string]bool{
 	"handleUserEvent": true, "handleQuery": true, "QueueBroadcast": true,
 	"registerQueryResponse": true, "SendToAddress": true, "relayResponse": true, "respondWithMessageAndResponse": true,
 }
 
-var limPureCalls = map[string]bool{
-	"len": true, "Errorf": true, "encodeMessage": true, "encodeRelayMessage": true, "Time": true, "ProtocolVersion": true,
-	"DefaultQueryParams": true, "DefaultQueryTimeout": true, "LocalNode": true, "encodeFilters": true, "Int31": true,
-	"uint32": true, "int": true, "newQueryResponse": true, "NumMembers": true, "checkResponseSize": true, "Lock": true,
-	"Unlock": true, "IsZero": true, "Now": true, "After": true, "String": true, "Members": true, "LocalMember": true,
-	"kRandomMembers": true, "createResponse": true,
+var limSuspicious = regexp.MustCompile(`^(?i)(send|queue|broadcast|handle|notify|relay|register|write|deliver|emit|publish|push|respond|transmit|forward|gossip)`)
+
+type limStep struct {
+	kind string // guard | test | clock | effect
+	a, b string // guard: Lean operand terms; test: cond; clock: name; effect: name
+	args []string
 }
 
-func limText(fset *token.FileSet, n ast.Node) string {
+type limPkg struct {
+	fset  *token.FileSet
+	funcs map[string][]*ast.FuncDecl // by bare name
+	files map[string]*ast.File
+	// package-level constants that evaluate to an integer
+	consts map[string]int64
+}
+
+func limLoadPkg(dir string) (*limPkg, error) {
+	p := &limPkg{fset: token.NewFileSet(), funcs: map[string][]*ast.FuncDecl{}, files: map[string]*ast.File{}, consts: map[string]int64{}}
+	ents, err := os.ReadDir(dir)
+	if err != nil {
+		return nil, err
+	}
+	for _, e := range ents {
+		n := e.Name()
+		if !strings.HasSuffix(n, ".go") || strings.HasSuffix(n, "_test.go") || strings.HasPrefix(n, "verif_hooks") {
+			continue
+		}
+		f, err := parser.ParseFile(p.fset, filepath.Join(dir, n), nil, 0)
+		if err != nil {
+			return nil, err
+		}
+		p.files[n] = f
+		for _, d := range f.Decls {
+			switch v := d.(type) {
+			case *ast.FuncDecl:
+				if v.Body != nil {
+					p.funcs[v.Name.Name] = append(p.funcs[v.Name.Name], v)
+				}
+			case *ast.GenDecl:
+				if v.Tok != token.CONST {
+					continue
+				}
+				for _, sp := range v.Specs {
+					vs := sp.(*ast.ValueSpec)
+					for i, nm := range vs.Names {
+						if i < len(vs.Values) {
+							if val, err := limEvalWith(vs.Values[i], p.consts); err == nil {
+								p.consts[nm.Name] = val
+							}
+						}
+					}
+				}
+			}
+		}
+	}
+	return p, nil
+}
+
+func limEvalWith(e ast.Expr, consts map[string]int64) (int64, error) {
+	switch v := e.(type) {
+	case *ast.BasicLit:
+		if v.Kind != token.INT {
+			return 0, fmt.Errorf("not an integer")
+		}
+		return strconv.ParseInt(v.Value, 0, 64)
+	case *ast.Ident:
+		if c, ok := consts[v.Name]; ok {
+			return c, nil
+		}
+	case *ast.ParenExpr:
+		return limEvalWith(v.X, consts)
+	case *ast.BinaryExpr:
+		a, err := limEvalWith(v.X, consts)
+		if err != nil {
+			return 0, err
+		}
+		b, err := limEvalWith(v.Y, consts)
+		if err != nil {
+			return 0, err
+		}
+		switch v.Op {
+		case token.MUL:
+			return a * b, nil
+		case token.ADD:
+			return a + b, nil
+		case token.SUB:
+			return a - b, nil
+		case token.SHL:
+			return a << uint(b), nil
+		}
+	}
+	return 0, fmt.Errorf("constant expression not understood")
+}
+
+// limFn: normalisation context of one function body.
+type limFn struct {
+	pkg        *limPkg
+	fd         *ast.FuncDecl
+	depth      int
+	subst      map[string]string   // receiver / parameter name -> normalised text
+	defs       map[string]ast.Expr // single-assignment locals -> defining expression
+	defSfx     map[string]string   // "#i" for the i-th result of a multi-value call
+	defText    map[string]string   // locals bound to the (already normalised) results of an inlined helper
+	opaque     map[string]string   // other locals -> v<k>
+	consts     map[string]int64    // function-local constants
+	errVar     map[string]bool     // locals holding an error result of a call
+	reassigned map[string]bool     // locals assigned more than once (never inlined)
+	nextV      *int
+	steps      []limStep
+	err        error
+}
+
+func (f *limFn) fail(format string, a ...any) {
+	if f.err == nil {
+		f.err = fmt.Errorf("%s: %s", f.fd.Name.Name, fmt.Sprintf(format, a...))
+	}
+}
+
+func (f *limFn) raw(n ast.Node) string {
 	var b bytes.Buffer
-	_ = printer.Fprint(&b, fset, n)
-	s := strings.Join(strings.Fields(b.String()), " ")
-	return s
+	_ = printer.Fprint(&b, f.pkg.fset, n)
+	return strings.Join(strings.Fields(b.String()), " ")
+}
+
+func (f *limFn) fresh(name string) {
+	delete(f.defs, name)
+	delete(f.defText, name)
+	delete(f.defSfx, name)
+	f.opaque[name] = fmt.Sprintf("v%d", *f.nextV)
+	*f.nextV++
+}
+
+func (f *limFn) constVal(e ast.Expr) (int64, bool) {
+	all := map[string]int64{}
+	for k, v := range f.pkg.consts {
+		all[k] = v
+	}
+	for k, v := range f.consts {
+		all[k] = v
+	}
+	// a local or parameter of the same name shadows a constant
+	if id, ok := e.(*ast.Ident); ok {
+		if _, s := f.subst[id.Name]; s {
+			return 0, false
+		}
+		if _, s := f.defs[id.Name]; s {
+			return 0, false
+		}
+		if _, s := f.opaque[id.Name]; s {
+			return 0, false
+		}
+		if _, s := f.defText[id.Name]; s {
+			return 0, false
+		}
+	}
+	v, err := limEvalWith(e, all)
+	return v, err == nil
+}
+
+// norm: alpha-normalised text of an expression.
+func (f *limFn) norm(e ast.Expr) string {
+	if e == nil {
+		return ""
+	}
+	if v, ok := f.constVal(e); ok {
+		return strconv.FormatInt(v, 10)
+	}
+	switch v := e.(type) {
+	case *ast.Ident:
+		if s, ok := f.subst[v.Name]; ok {
+			return s
+		}
+		if t, ok := f.defText[v.Name]; ok {
+			return t
+		}
+		if d, ok := f.defs[v.Name]; ok {
+			return f.norm(d) + f.defSfx[v.Name]
+		}
+		if o, ok := f.opaque[v.Name]; ok {
+			return o
+		}
+		return v.Name
+	case *ast.BasicLit:
+		return v.Value
+	case *ast.ParenExpr:
+		switch v.X.(type) {
+		case *ast.Ident, *ast.CallExpr, *ast.BasicLit, *ast.SelectorExpr:
+			return f.norm(v.X)
+		}
+		return "(" + f.norm(v.X) + ")"
+	case *ast.BinaryExpr:
+		return f.norm(v.X) + " " + v.Op.String() + " " + f.norm(v.Y)
+	case *ast.UnaryExpr:
+		return v.Op.String() + f.norm(v.X)
+	case *ast.StarExpr:
+		return "*" + f.norm(v.X)
+	case *ast.SelectorExpr:
+		return f.norm(v.X) + "." + v.Sel.Name
+	case *ast.IndexExpr:
+		return f.norm(v.X) + "[" + f.norm(v.Index) + "]"
+	case *ast.CallExpr:
+		args := make([]string, len(v.Args))
+		for i, a := range v.Args {
+			args[i] = f.norm(a)
+		}
+		return f.norm(v.Fun) + "(" + strings.Join(args, ", ") + ")"
+	case *ast.CompositeLit:
+		var keyed, plain []string
+		for _, el := range v.Elts {
+			if kv, ok := el.(*ast.KeyValueExpr); ok {
+				keyed = append(keyed, f.raw(kv.Key)+": "+f.norm(kv.Value))
+			} else {
+				plain = append(plain, f.norm(el))
+			}
+		}
+		sort.Strings(keyed)
+		t := ""
+		if v.Type != nil {
+			t = f.raw(v.Type)
+		}
+		return t + "{" + strings.Join(append(plain, keyed...), ", ") + "}"
+	case *ast.FuncLit:
+		return "func{…}"
+	}
+	return f.raw(e)
+}
+
+// resolve follows single-assignment locals (and & / parentheses) to the defining expression.
+func (f *limFn) resolve(e ast.Expr) ast.Expr {
+	for i := 0; i < 8; i++ {
+		switch v := e.(type) {
+		case *ast.ParenExpr:
+			e = v.X
+		case *ast.UnaryExpr:
+			if v.Op != token.AND {
+				return e
+			}
+			e = v.X
+		case *ast.Ident:
+			d, ok := f.defs[v.Name]
+			if !ok || f.defSfx[v.Name] != "" {
+				return e
+			}
+			e = d
+		default:
+			return e
+		}
+	}
+	return e
+}
+
+var (
+	reSumLen = regexp.MustCompile(`^len\(p(\d+)\)( \+ len\(p(\d+)\))*$`)
+	reLenP   = regexp.MustCompile(`len\(p(\d+)\)`)
+	reCfg    = regexp.MustCompile(`^recv(\.serf)?\.config\.(\w+)$`)
+	reConst  = regexp.MustCompile(`^\d+$`)
+)
+
+func leanStr(s string) string { return strconv.Quote(s) }
+
+// operand: the Lean term for a guard operand.
+func (f *limFn) operand(e ast.Expr) string {
+	txt := f.norm(e)
+	if reSumLen.MatchString(txt) {
+		var idx []string
+		for _, m := range reLenP.FindAllStringSubmatch(txt, -1) {
+			idx = append(idx, m[1])
+		}
+		return "(.sumLenParams [" + strings.Join(idx, ", ") + "])"
+	}
+	if m := reCfg.FindStringSubmatch(txt); m != nil {
+		return "(.cfg " + leanStr(m[2]) + ")"
+	}
+	if reConst.MatchString(txt) {
+		return "(.const " + txt + ")"
+	}
+	// len(<encode call>)
+	if c, ok := e.(*ast.CallExpr); ok && len(c.Args) == 1 {
+		if id, ok := c.Fun.(*ast.Ident); ok && id.Name == "len" {
+			if enc, ok := f.resolve(c.Args[0]).(*ast.CallExpr); ok {
+				if fn, ok := enc.Fun.(*ast.Ident); ok && (fn.Name == "encodeMessage" || fn.Name == "encodeRelayMessage") && len(enc.Args) >= 2 {
+					typ := f.norm(enc.Args[0])
+					msgArg := enc.Args[1]
+					if fn.Name == "encodeRelayMessage" {
+						msgArg = enc.Args[len(enc.Args)-1]
+					}
+					var fields []string
+					if lit, ok := f.resolve(msgArg).(*ast.CompositeLit); ok {
+						for _, el := range lit.Elts {
+							if kv, ok := el.(*ast.KeyValueExpr); ok {
+								fields = append(fields, "("+leanStr(f.raw(kv.Key))+", "+leanStr(f.norm(kv.Value))+")")
+							}
+						}
+						sort.Strings(fields)
+					}
+					return "(.lenEnc " + leanStr(f.norm(enc)) + " " + leanStr(fn.Name+":"+typ) + " [" + strings.Join(fields, ", ") + "])"
+				}
+			}
+		}
+	}
+	return "(.other " + leanStr(txt) + ")"
+}
+
+var reParam = regexp.MustCompile(`^&?p(\d+)$`)
+
+// encCall: e (through single-assignment locals, & and a one-field wrapper literal such as
+// &broadcast{msg: raw}) is the result of encodeMessage / encodeRelayMessage.
+func (f *limFn) encCall(e ast.Expr) (*ast.CallExpr, bool) {
+	r := f.resolve(e)
+	if lit, ok := r.(*ast.CompositeLit); ok && len(lit.Elts) == 1 {
+		if kv, ok := lit.Elts[0].(*ast.KeyValueExpr); ok {
+			r = f.resolve(kv.Value)
+		}
+	}
+	c, ok := r.(*ast.CallExpr)
+	if !ok {
+		return nil, false
+	}
+	fn, ok := c.Fun.(*ast.Ident)
+	if !ok || (fn.Name != "encodeMessage" && fn.Name != "encodeRelayMessage") || len(c.Args) < 2 {
+		return nil, false
+	}
+	return c, true
+}
+
+// argOf: the Lean term for an effect argument.
+func (f *limFn) argOf(e ast.Expr) string {
+	if c, ok := f.encCall(e); ok {
+		return "(.enc " + leanStr(c.Fun.(*ast.Ident).Name+":"+f.norm(c.Args[0])) + " " + leanStr(f.norm(c)) + ")"
+	}
+	txt := f.norm(e)
+	if m := reParam.FindStringSubmatch(txt); m != nil {
+		return "(.param " + m[1] + ")"
+	}
+	// any other argument: its text is irrelevant to the property and is not recorded
+	return "(.other \"_\")"
 }
 
 func calleeName(c *ast.CallExpr) string {
-	switch f := c.Fun.(type) {
+	switch fn := c.Fun.(type) {
 	case *ast.Ident:
-		return f.Name
+		return fn.Name
 	case *ast.SelectorExpr:
-		return f.Sel.Name
+		return fn.Sel.Name
 	}
 	return "?"
 }
 
-// clockCall recognises <recv>.<xClock>.Increment() / .Witness(…) and returns "<xClock>.<method>".
 func clockCall(c *ast.CallExpr) (string, bool) {
 	sel, ok := c.Fun.(*ast.SelectorExpr)
 	if !ok || (sel.Sel.Name != "Increment" && sel.Sel.Name != "Witness") {
@@ -73,225 +415,599 @@ func clockCall(c *ast.CallExpr) (string, bool) {
 	return n + "." + sel.Sel.Name, true
 }
 
-var limClocks []string // clock steps found by the last scanEffects call
+// isPkgCall: pkg.Func(...) where pkg is an import of the file (not a local, parameter or receiver).
+func (f *limFn) isPkgCall(c *ast.CallExpr) bool {
+	sel, ok := c.Fun.(*ast.SelectorExpr)
+	if !ok {
+		return false
+	}
+	id, ok := sel.X.(*ast.Ident)
+	if !ok {
+		return false
+	}
+	if _, s := f.subst[id.Name]; s {
+		return false
+	}
+	if _, s := f.defs[id.Name]; s {
+		return false
+	}
+	if _, s := f.opaque[id.Name]; s {
+		return false
+	}
+	return id.Obj == nil
+}
 
-// scanEffects lists the effect callees inside n (and, in limClocks, the Lamport clock steps) and
-// rejects unknown calls, sends and go statements.
-func scanEffects(n ast.Node) (effects []string, err error) {
-	limClocks = nil
+// helperSteps: the steps of a same-package helper called as c (nil, false when c is not one).
+func (f *limFn) helperSteps(c *ast.CallExpr) ([]limStep, bool) {
+	name := calleeName(c)
+	cands := f.pkg.funcs[name]
+	if len(cands) == 0 || f.isPkgCall(c) {
+		return nil, false
+	}
+	if f.depth >= 2 {
+		// below the second level helpers are not expanded any more: they must be visibly step-free
+		for _, fd := range cands {
+			if !limShallowFree(fd) {
+				f.fail("helper %s is nested too deeply to follow and is not visibly effect-free", name)
+			}
+		}
+		return nil, true
+	}
+	var result []limStep
+	for i, fd := range cands {
+		sub := f.subContext(fd, c)
+		sub.block(fd.Body.List)
+		if sub.err != nil {
+			f.fail("in helper %v", sub.err)
+			return nil, true
+		}
+		if i == 0 {
+			result = sub.steps
+		} else if len(sub.steps) != 0 || len(result) != 0 {
+			f.fail("call to %s is ambiguous (%d declarations) and not all of them are step-free", name, len(cands))
+			return nil, true
+		}
+	}
+	return result, true
+}
+
+// inlineResults: c calls a same-package helper with exactly one declaration whose body is a
+// straight-line block ending in its only `return e1, …, en` and containing no steps: the
+// normalised results, with the helper's receiver and parameters substituted.
+func (f *limFn) inlineResults(c *ast.CallExpr, n int) ([]string, bool) {
+	if f.depth >= 2 || f.isPkgCall(c) {
+		return nil, false
+	}
+	cands := f.pkg.funcs[calleeName(c)]
+	if len(cands) != 1 || limEffects[calleeName(c)] {
+		return nil, false
+	}
+	fd := cands[0]
+	body := fd.Body.List
+	if len(body) == 0 {
+		return nil, false
+	}
+	ret, ok := body[len(body)-1].(*ast.ReturnStmt)
+	if !ok || len(ret.Results) != n {
+		return nil, false
+	}
+	for _, st := range body[:len(body)-1] {
+		switch st.(type) {
+		case *ast.AssignStmt, *ast.DeclStmt:
+		default:
+			return nil, false
+		}
+	}
+	sub := f.subContext(fd, c)
+	sub.block(body[:len(body)-1])
+	if sub.err != nil || len(sub.steps) != 0 {
+		return nil, false
+	}
+	out := make([]string, n)
+	for i, r := range ret.Results {
+		if len(sub.scan(r)) != 0 {
+			return nil, false
+		}
+		out[i] = sub.norm(r)
+	}
+	return out, true
+}
+
+func (f *limFn) subContext(fd *ast.FuncDecl, c *ast.CallExpr) *limFn {
+	sub := &limFn{pkg: f.pkg, fd: fd, depth: f.depth + 1, subst: map[string]string{}, defs: map[string]ast.Expr{}, defSfx: map[string]string{},
+		opaque: map[string]string{}, consts: map[string]int64{}, errVar: map[string]bool{}, nextV: new(int)}
+	if fd.Recv != nil && len(fd.Recv.List) == 1 && len(fd.Recv.List[0].Names) == 1 {
+		if sel, ok := c.Fun.(*ast.SelectorExpr); ok {
+			sub.subst[fd.Recv.List[0].Names[0].Name] = f.norm(sel.X)
+		} else {
+			sub.subst[fd.Recv.List[0].Names[0].Name] = "recv"
+		}
+	}
+	k := 0
+	for _, fl := range fd.Type.Params.List {
+		for _, nm := range fl.Names {
+			if k < len(c.Args) {
+				sub.subst[nm.Name] = f.norm(c.Args[k])
+			}
+			k++
+		}
+	}
+	return sub
+}
+
+// scan: the steps contained in an expression / statement, in source order.
+func (f *limFn) scan(n ast.Node) []limStep {
+	var out []limStep
 	ast.Inspect(n, func(x ast.Node) bool {
 		switch v := x.(type) {
 		case *ast.FuncLit:
-			return false // a closure passed as an argument runs later, under its callee's name
+			return false
+		case *ast.SendStmt:
+			out = append(out, limStep{kind: "effect", a: "chan-send"})
+		case *ast.GoStmt:
+			out = append(out, limStep{kind: "effect", a: "go"})
 		case *ast.CallExpr:
 			name := calleeName(v)
 			if ck, ok := clockCall(v); ok {
-				limClocks = append(limClocks, ck)
-			} else if limEffects[name] {
-				effects = append(effects, name)
-			} else if !limPureCalls[name] {
-				// conversions to named types / composite helper constructors
-				if id, ok := v.Fun.(*ast.Ident); ok && (id.Name == "messageType" || id.Name == "string" || id.Name == "uint8") {
-					return true
-				}
-				if err == nil {
-					err = fmt.Errorf("call to %s is not classified (effect or effect-free?)", name)
-				}
+				out = append(out, limStep{kind: "clock", a: ck})
+				return true
 			}
-		case *ast.SendStmt:
-			effects = append(effects, "chan-send")
-		case *ast.GoStmt:
-			effects = append(effects, "go")
+			if limEffects[name] {
+				args := make([]string, len(v.Args))
+				for i, a := range v.Args {
+					args[i] = f.argOf(a)
+				}
+				out = append(out, limStep{kind: "effect", a: name, args: args})
+				return true
+			}
+			if sub, ok := f.helperSteps(v); ok {
+				out = append(out, sub...)
+				return true
+			}
+			if limSuspicious.MatchString(name) && strings.HasPrefix(f.norm(v.Fun), "recv.") {
+				f.fail("call to %s looks like an observable effect but is not a known one", name)
+			}
 		}
 		return true
 	})
-	return
+	return out
 }
 
-type limStep struct{ kind, a, b string }
-
-func limQuote(s string) string { return strconv.Quote(s) }
-
-func (s limStep) lean() string {
-	switch s.kind {
-	case "guard":
-		return fmt.Sprintf(".guard %s %s", limQuote(s.a), limQuote(s.b))
-	case "check":
-		return fmt.Sprintf(".check %s", limQuote(s.a))
-	case "pure":
-		return fmt.Sprintf(".pure %s", limQuote(s.a))
-	case "effect":
-		return fmt.Sprintf(".effect %s %s", limQuote(s.a), limQuote(s.b))
-	case "clock":
-		return fmt.Sprintf(".clock %s %s", limQuote(s.a), limQuote(s.b))
-	}
-	return ".ret"
+// limShallowFree: no known effect, clock step, send or go statement occurs textually in the body.
+func limShallowFree(fd *ast.FuncDecl) bool {
+	free := true
+	ast.Inspect(fd.Body, func(x ast.Node) bool {
+		switch v := x.(type) {
+		case *ast.SendStmt, *ast.GoStmt:
+			free = false
+		case *ast.CallExpr:
+			if _, ok := clockCall(v); ok || limEffects[calleeName(v)] {
+				free = false
+			}
+		}
+		return free
+	})
+	return free
 }
 
-// returnsError: the block is exactly `return …` whose last result is not the identifier nil.
-func returnsError(b *ast.BlockStmt) bool {
-	if len(b.List) != 1 {
+// isErrorReturn: the block ends in `return …, <non-nil error>` and nothing before the return has a step
+// (an explicit unlock, a log line).
+func (f *limFn) isErrorReturn(b *ast.BlockStmt) bool {
+	if b == nil || len(b.List) == 0 {
 		return false
 	}
-	r, ok := b.List[0].(*ast.ReturnStmt)
+	for _, st := range b.List[:len(b.List)-1] {
+		switch st.(type) {
+		case *ast.ExprStmt, *ast.AssignStmt:
+			if len(f.scan(st)) != 0 {
+				return false
+			}
+		default:
+			return false
+		}
+	}
+	r, ok := b.List[len(b.List)-1].(*ast.ReturnStmt)
 	if !ok || len(r.Results) == 0 {
 		return false
 	}
-	last := r.Results[len(r.Results)-1]
-	if id, ok := last.(*ast.Ident); ok && id.Name == "nil" {
+	if id, ok := r.Results[len(r.Results)-1].(*ast.Ident); ok && id.Name == "nil" {
 		return false
 	}
 	return true
 }
 
-func limSteps(fset *token.FileSet, fd *ast.FuncDecl) ([]limStep, error) {
-	var out []limStep
-	defs := map[string]string{} // single-assignment locals that are pure arithmetic over len(): inlined into guards
-	for _, st := range fd.Body.List {
-		switch v := st.(type) {
-		case *ast.IfStmt:
-			// guard: if a > b { return error }
-			if be, ok := v.Cond.(*ast.BinaryExpr); ok && v.Init == nil && v.Else == nil && be.Op == token.GTR && returnsError(v.Body) {
-				lhs := limText(fset, be.X)
-				if d, ok := defs[lhs]; ok {
-					lhs = d
-				}
-				out = append(out, limStep{"guard", lhs, limText(fset, be.Y)})
-				continue
-			}
-			if be, ok := v.Cond.(*ast.BinaryExpr); ok && (be.Op == token.LSS || be.Op == token.GEQ || be.Op == token.LEQ) && returnsError(v.Body) {
-				if strings.Contains(limText(fset, be), "len(") {
-					return nil, fmt.Errorf("%s: size comparison with an unexpected operator: %s", fd.Name.Name, limText(fset, be))
-				}
-			}
-			// check: if err := call; err != nil { return err }
-			if as, ok := v.Init.(*ast.AssignStmt); ok && len(as.Rhs) == 1 && v.Else == nil && returnsError(v.Body) {
-				if c, ok := as.Rhs[0].(*ast.CallExpr); ok {
-					name := calleeName(c)
-					if limEffects[name] {
-						out = append(out, limStep{"effect", name, limArgs(fset, c)})
-					} else {
-						if _, err := scanEffects(c); err != nil {
-							return nil, fmt.Errorf("%s: %v", fd.Name.Name, err)
+// define records the locals a statement introduces.
+func (f *limFn) define(st ast.Stmt) {
+	switch v := st.(type) {
+	case *ast.AssignStmt:
+		if v.Tok == token.DEFINE && len(v.Rhs) == 1 {
+			if c, ok := v.Rhs[0].(*ast.CallExpr); ok {
+				if res, ok := f.inlineResults(c, len(v.Lhs)); ok {
+					for i, l := range v.Lhs {
+						if id, ok := l.(*ast.Ident); ok && id.Name != "_" {
+							delete(f.defs, id.Name)
+							delete(f.defSfx, id.Name)
+							delete(f.opaque, id.Name)
+							if f.defText == nil {
+								f.defText = map[string]string{}
+							}
+							f.defText[id.Name] = res[i]
 						}
-						if len(limClocks) > 0 {
-							return nil, fmt.Errorf("%s: clock step inside a checked call", fd.Name.Name)
-						}
-						out = append(out, limStep{"check", limText(fset, c), ""})
 					}
+					return
+				}
+			}
+			_, isCall := v.Rhs[0].(*ast.CallExpr)
+			for i, l := range v.Lhs {
+				id, ok := l.(*ast.Ident)
+				if !ok || id.Name == "_" {
 					continue
 				}
+				if _, exists := f.defs[id.Name]; exists {
+					f.fresh(id.Name)
+					continue
+				}
+				if _, exists := f.opaque[id.Name]; exists {
+					f.fresh(id.Name)
+					continue
+				}
+				if len(v.Lhs) == 1 {
+					f.defs[id.Name] = v.Rhs[0]
+				} else if isCall {
+					f.defs[id.Name] = v.Rhs[0]
+					if i > 0 {
+						f.defSfx[id.Name] = fmt.Sprintf("#%d", i)
+						f.errVar[id.Name] = true
+					}
+				} else {
+					f.fresh(id.Name)
+				}
+				if isCall && len(v.Lhs) == 1 {
+					f.errVar[id.Name] = true // may be an error; only used for `x != nil` propagation tests
+				}
 			}
-			effs, err := scanEffects(v)
-			if err == nil {
-				err = mixedErr(fd.Name.Name, effs)
+			return
+		}
+		for _, l := range v.Lhs {
+			if id, ok := l.(*ast.Ident); ok && id.Name != "_" {
+				f.fresh(id.Name)
 			}
-			if err != nil {
-				return nil, fmt.Errorf("%s: %v", fd.Name.Name, err)
-			}
-			if len(effs) > 0 {
-				out = append(out, limStep{"effect", strings.Join(effs, "+"), limText(fset, v.Cond)})
-			} else {
-				out = append(out, pureOrClock("if "+limText(fset, v.Cond)))
-			}
-		case *ast.ReturnStmt:
-			effs, err := scanEffects(v)
-			if err == nil {
-				err = mixedErr(fd.Name.Name, effs)
-			}
-			if err != nil {
-				return nil, fmt.Errorf("%s: %v", fd.Name.Name, err)
-			}
-			if len(effs) > 0 {
-				out = append(out, limStep{"effect", strings.Join(effs, "+"), ""})
-			} else if len(limClocks) > 0 {
-				out = append(out, pureOrClock(limText(fset, v)))
-			}
-			out = append(out, limStep{"ret", "", ""})
-		case *ast.ExprStmt:
-			c, ok := v.X.(*ast.CallExpr)
+		}
+	case *ast.DeclStmt:
+		gd, ok := v.Decl.(*ast.GenDecl)
+		if !ok {
+			return
+		}
+		for _, sp := range gd.Specs {
+			vs, ok := sp.(*ast.ValueSpec)
 			if !ok {
-				return nil, fmt.Errorf("%s: expression statement %s", fd.Name.Name, limText(fset, v))
+				continue
 			}
-			effs, err := scanEffects(v)
-			if err == nil {
-				err = mixedErr(fd.Name.Name, effs)
-			}
-			if err != nil {
-				return nil, fmt.Errorf("%s: %v", fd.Name.Name, err)
-			}
-			if len(effs) > 0 {
-				out = append(out, limStep{"effect", calleeName(c), limArgs(fset, c)})
-			} else {
-				out = append(out, pureOrClock(limText(fset, v)))
-			}
-		case *ast.AssignStmt, *ast.DeclStmt, *ast.DeferStmt, *ast.ForStmt, *ast.RangeStmt:
-			effs, err := scanEffects(v)
-			if err == nil {
-				err = mixedErr(fd.Name.Name, effs)
-			}
-			if err != nil {
-				return nil, fmt.Errorf("%s: %v", fd.Name.Name, err)
-			}
-			if len(effs) > 0 {
-				args := ""
-				ast.Inspect(v, func(x ast.Node) bool {
-					if c, ok := x.(*ast.CallExpr); ok && limEffects[calleeName(c)] && args == "" {
-						args = limArgs(fset, c)
-					}
-					return true
-				})
-				out = append(out, limStep{"effect", strings.Join(effs, "+"), args})
-			} else {
-				txt := limText(fset, v)
-				if as, ok := v.(*ast.AssignStmt); ok && as.Tok == token.DEFINE && len(as.Lhs) == 1 && len(as.Rhs) == 1 {
-					if id, ok := as.Lhs[0].(*ast.Ident); ok {
-						r := limText(fset, as.Rhs[0])
-						if strings.HasPrefix(r, "len(") {
-							defs[id.Name] = r
-						}
+			for i, nm := range vs.Names {
+				if gd.Tok == token.CONST && i < len(vs.Values) {
+					if val, ok := f.constVal(vs.Values[i]); ok {
+						f.consts[nm.Name] = val
+						continue
 					}
 				}
-				if len(txt) > 160 {
-					txt = txt[:160]
+				if gd.Tok == token.VAR && i < len(vs.Values) && len(vs.Names) == len(vs.Values) {
+					f.defs[nm.Name] = vs.Values[i]
+					continue
 				}
-				out = append(out, pureOrClock(txt))
+				f.fresh(nm.Name)
 			}
+		}
+	case *ast.RangeStmt:
+		for _, e := range []ast.Expr{v.Key, v.Value} {
+			if id, ok := e.(*ast.Ident); ok && id.Name != "_" {
+				f.fresh(id.Name)
+			}
+		}
+	}
+}
+
+// a variable that is assigned again later must not be inlined: demote to an opaque local
+func (f *limFn) demoteReassigned(list []ast.Stmt) {
+	declared := map[string]bool{}
+	for _, st := range list {
+		ast.Inspect(st, func(x ast.Node) bool {
+			switch v := x.(type) {
+			case *ast.FuncLit:
+				return false
+			case *ast.AssignStmt:
+				for _, l := range v.Lhs {
+					id, ok := l.(*ast.Ident)
+					if !ok {
+						continue
+					}
+					if v.Tok == token.DEFINE && !declared[id.Name] {
+						declared[id.Name] = true
+					} else {
+						f.reassigned[id.Name] = true
+					}
+				}
+			case *ast.IncDecStmt:
+				if id, ok := v.X.(*ast.Ident); ok {
+					f.reassigned[id.Name] = true
+				}
+			case *ast.UnaryExpr:
+				// &x handed to a callee may be written through; message literals passed as &msg are read-only by convention
+			}
+			return true
+		})
+	}
+}
+
+type cmp struct {
+	lhs, rhs ast.Expr
+	strict   bool // error iff lhs > rhs (true) / lhs >= rhs (false)
+}
+
+// sizeCmp: cond (or its negation when neg) as "error iff lhs > rhs" when it is a size comparison.
+func (f *limFn) sizeCmp(cond ast.Expr, neg bool) (*cmp, bool) {
+	for {
+		if p, ok := cond.(*ast.ParenExpr); ok {
+			cond = p.X
+			continue
+		}
+		if u, ok := cond.(*ast.UnaryExpr); ok && u.Op == token.NOT {
+			cond, neg = u.X, !neg
+			continue
+		}
+		break
+	}
+	be, ok := cond.(*ast.BinaryExpr)
+	if !ok {
+		return nil, false
+	}
+	txt := f.norm(be)
+	if !strings.Contains(txt, "len(") {
+		return nil, false
+	}
+	op := be.Op
+	if neg {
+		switch op {
+		case token.GTR:
+			op = token.LEQ
+		case token.LSS:
+			op = token.GEQ
+		case token.GEQ:
+			op = token.LSS
+		case token.LEQ:
+			op = token.GTR
 		default:
-			return nil, fmt.Errorf("%s: statement of unexpected kind %T", fd.Name.Name, st)
+			return nil, false
 		}
 	}
-	return out, nil
-}
-
-// pureOrClock: the statement has no observable effect; it is a clock step when scanEffects saw one.
-func pureOrClock(txt string) limStep {
-	if len(limClocks) > 0 {
-		return limStep{"clock", strings.Join(limClocks, "+"), txt}
+	switch op {
+	case token.GTR:
+		return &cmp{be.X, be.Y, true}, true
+	case token.LSS:
+		return &cmp{be.Y, be.X, true}, true
+	case token.GEQ:
+		return &cmp{be.X, be.Y, false}, true
+	case token.LEQ:
+		return &cmp{be.Y, be.X, false}, true
 	}
-	return limStep{"pure", txt, ""}
+	return nil, false
 }
 
-func mixedErr(fn string, effs []string) error {
-	if len(effs) > 0 && len(limClocks) > 0 {
-		return fmt.Errorf("%s: one statement both steps a clock (%v) and has an observable effect (%v): order not representable", fn, limClocks, effs)
-	}
-	return nil
-}
-
-func limArgs(fset *token.FileSet, c *ast.CallExpr) string {
-	var parts []string
-	for _, a := range c.Args {
-		t := limText(fset, a)
-		if len(t) > 60 {
-			t = t[:60]
+func (f *limFn) condText(cond ast.Expr, neg bool) string {
+	for {
+		if p, ok := cond.(*ast.ParenExpr); ok {
+			cond = p.X
+			continue
 		}
-		parts = append(parts, t)
+		if u, ok := cond.(*ast.UnaryExpr); ok && u.Op == token.NOT {
+			cond, neg = u.X, !neg
+			continue
+		}
+		break
 	}
-	return strings.Join(parts, ", ")
+	if neg {
+		if be, ok := cond.(*ast.BinaryExpr); ok {
+			flip := map[token.Token]token.Token{token.EQL: token.NEQ, token.NEQ: token.EQL, token.LSS: token.GEQ, token.GEQ: token.LSS, token.GTR: token.LEQ, token.LEQ: token.GTR}
+			if o, ok := flip[be.Op]; ok {
+				return f.norm(be.X) + " " + o.String() + " " + f.norm(be.Y)
+			}
+		}
+		return "!(" + f.norm(cond) + ")"
+	}
+	return f.norm(cond)
 }
 
-// limConst evaluates `const name = <int> [* <int>]` in file f.
+// isErrProp: `x != nil` where x holds the error result of a call (plain error propagation).
+func (f *limFn) isErrProp(cond ast.Expr) bool {
+	be, ok := cond.(*ast.BinaryExpr)
+	if !ok || be.Op != token.NEQ {
+		return false
+	}
+	id, ok := be.X.(*ast.Ident)
+	nl, ok2 := be.Y.(*ast.Ident)
+	return ok && ok2 && nl.Name == "nil" && (f.errVar[id.Name] || f.reassigned[id.Name])
+}
+
+func (f *limFn) errorExit(cond ast.Expr, neg bool) {
+	if c, ok := f.sizeCmp(cond, neg); ok {
+		if !c.strict {
+			f.fail("size comparison is not equivalent to `lhs > rhs`: %s", f.raw(cond))
+			return
+		}
+		f.steps = append(f.steps, limStep{kind: "guard", a: f.operand(c.lhs), b: f.operand(c.rhs)})
+		return
+	}
+	if !neg && f.isErrProp(cond) {
+		return
+	}
+	f.steps = append(f.steps, limStep{kind: "test", a: f.condText(cond, neg)})
+}
+
+func (f *limFn) block(list []ast.Stmt) {
+	if f.reassigned == nil {
+		f.reassigned = map[string]bool{}
+		f.demoteReassigned(list)
+	}
+	for _, st := range list {
+		if f.err != nil {
+			return
+		}
+		switch v := st.(type) {
+		case *ast.IfStmt:
+			if v.Init != nil {
+				f.steps = append(f.steps, f.scan(v.Init)...)
+				f.define(v.Init)
+				f.demote()
+			}
+			elseBlock, _ := v.Else.(*ast.BlockStmt)
+			switch {
+			case f.isErrorReturn(v.Body) && v.Else == nil:
+				f.steps = append(f.steps, f.scan(v.Cond)...)
+				f.errorExit(v.Cond, false)
+			case f.isErrorReturn(v.Body) && elseBlock != nil:
+				f.steps = append(f.steps, f.scan(v.Cond)...)
+				f.errorExit(v.Cond, false)
+				f.block(elseBlock.List)
+			case elseBlock != nil && f.isErrorReturn(elseBlock):
+				f.steps = append(f.steps, f.scan(v.Cond)...)
+				f.errorExit(v.Cond, true)
+				f.block(v.Body.List)
+			default:
+				// a conditional without an error exit: its steps (if any) in source order
+				f.nested(v)
+			}
+		case *ast.BlockStmt:
+			f.block(v.List)
+		default:
+			f.nested(st)
+		}
+	}
+}
+
+// nested: a statement taken as a whole (its inner locals are registered first, so that effect
+// arguments are normalised consistently).
+func (f *limFn) nested(st ast.Stmt) {
+	ast.Inspect(st, func(x ast.Node) bool {
+		if _, ok := x.(*ast.FuncLit); ok {
+			return false
+		}
+		if s, ok := x.(ast.Stmt); ok {
+			f.define(s)
+		}
+		return true
+	})
+	f.demote()
+	f.steps = append(f.steps, f.scan(st)...)
+}
+
+func (f *limFn) demote() {
+	for name := range f.reassigned {
+		if _, ok := f.defs[name]; ok {
+			f.fresh(name)
+		}
+	}
+}
+
+func limTop(pkg *limPkg, recv, name string) ([]limStep, error) {
+	var fd *ast.FuncDecl
+	for _, c := range pkg.funcs[name] {
+		if c.Recv == nil || len(c.Recv.List) != 1 {
+			continue
+		}
+		t := c.Recv.List[0].Type
+		if s, ok := t.(*ast.StarExpr); ok {
+			t = s.X
+		}
+		if id, ok := t.(*ast.Ident); ok && id.Name == recv {
+			fd = c
+		}
+	}
+	if fd == nil {
+		return nil, fmt.Errorf("(%s).%s not found", recv, name)
+	}
+	nv := 0
+	f := &limFn{pkg: pkg, fd: fd, subst: map[string]string{}, defs: map[string]ast.Expr{}, defSfx: map[string]string{}, opaque: map[string]string{},
+		consts: map[string]int64{}, errVar: map[string]bool{}, nextV: &nv}
+	if len(fd.Recv.List[0].Names) == 1 {
+		f.subst[fd.Recv.List[0].Names[0].Name] = "recv"
+	}
+	k := 0
+	for _, fl := range fd.Type.Params.List {
+		for _, nm := range fl.Names {
+			f.subst[nm.Name] = fmt.Sprintf("p%d", k)
+			k++
+		}
+	}
+	f.block(fd.Body.List)
+	return f.steps, f.err
+}
+
+func (s limStep) lean() string {
+	switch s.kind {
+	case "guard":
+		return fmt.Sprintf(".guard %s %s", s.a, s.b)
+	case "test":
+		return fmt.Sprintf(".test %s", leanStr(s.a))
+	case "clock":
+		return fmt.Sprintf(".clock %s", leanStr(s.a))
+	}
+	return fmt.Sprintf(".effect %s [%s]", leanStr(s.a), strings.Join(s.args, ", "))
+}
+
+func init() {
+	addGen("Limits", func(repo string) (string, error) {
+		pkg, err := limLoadPkg(repo + "/serf")
+		if err != nil {
+			return "", err
+		}
+		fns := []struct{ recv, name, lean string }{
+			{"Serf", "UserEvent", "userEvent"},
+			{"Serf", "Query", "query"},
+			{"Query", "respondWithMessageAndResponse", "respondWithMessageAndResponse"},
+			{"Query", "Respond", "respond"},
+			{"Serf", "relayResponse", "relayResponse"},
+		}
+		var b strings.Builder
+		b.WriteString("-- GENERATED by /verif/extract from /repo/serf/*.go (UserEvent, Query, respondWithMessageAndResponse, Respond, relayResponse) — do not edit.\n")
+		b.WriteString("import SerfModel.Model.LimitSteps\nnamespace SerfModel.Gen.Limits\nopen SerfModel.LimitSteps\n\n")
+		for _, fn := range fns {
+			steps, err := limTop(pkg, fn.recv, fn.name)
+			if err != nil {
+				return "", err
+			}
+			fmt.Fprintf(&b, "/-- (%s).%s -/\ndef %s : List Step := [\n", fn.recv, fn.name, fn.lean)
+			for i, s := range steps {
+				sep := ","
+				if i == len(steps)-1 {
+					sep = ""
+				}
+				fmt.Fprintf(&b, "  %s%s\n", s.lean(), sep)
+			}
+			b.WriteString("]\n\n")
+		}
+		c, ok := pkg.consts["UserEventSizeLimit"]
+		if !ok {
+			return "", fmt.Errorf("constant UserEventSizeLimit not found")
+		}
+		fmt.Fprintf(&b, "/-- serf.go const UserEventSizeLimit -/\ndef userEventSizeLimitConst : Nat := %d\n\n", c)
+		b.WriteString("end SerfModel.Gen.Limits\n")
+		return b.String(), nil
+	})
+}
+
+// ---- small helpers shared with other generators of this package ----
+
+func limText(fset *token.FileSet, n ast.Node) string {
+	var b bytes.Buffer
+	_ = printer.Fprint(&b, fset, n)
+	return strings.Join(strings.Fields(b.String()), " ")
+}
+
+func limQuote(s string) string { return strconv.Quote(s) }
+
+// limEval evaluates an integer constant expression built from literals, * + - <<.
+func limEval(e ast.Expr) (int64, error) { return limEvalWith(e, nil) }
+
+// limConst evaluates `const name = <int expr>` in file f.
 func limConst(f *ast.File, name string) (int64, error) {
 	for _, d := range f.Decls {
 		gd, ok := d.(*ast.GenDecl)
@@ -309,84 +1025,4 @@ func limConst(f *ast.File, name string) (int64, error) {
 		}
 	}
 	return 0, fmt.Errorf("constant %s not found", name)
-}
-
-func limEval(e ast.Expr) (int64, error) {
-	switch v := e.(type) {
-	case *ast.BasicLit:
-		return strconv.ParseInt(v.Value, 0, 64)
-	case *ast.ParenExpr:
-		return limEval(v.X)
-	case *ast.BinaryExpr:
-		a, err := limEval(v.X)
-		if err != nil {
-			return 0, err
-		}
-		b, err := limEval(v.Y)
-		if err != nil {
-			return 0, err
-		}
-		switch v.Op {
-		case token.MUL:
-			return a * b, nil
-		case token.ADD:
-			return a + b, nil
-		case token.SHL:
-			return a << uint(b), nil
-		}
-	}
-	return 0, fmt.Errorf("constant expression not understood")
-}
-
-func init() {
-	addGen("Limits", func(repo string) (string, error) {
-		type fn struct{ file, recv, name, lean string }
-		fns := []fn{
-			{"serf/serf.go", "Serf", "UserEvent", "userEvent"},
-			{"serf/serf.go", "Serf", "Query", "query"},
-			{"serf/event.go", "Query", "checkResponseSize", "checkResponseSize"},
-			{"serf/event.go", "Query", "respondWithMessageAndResponse", "respondWithMessageAndResponse"},
-			{"serf/event.go", "Query", "Respond", "respond"},
-			{"serf/query.go", "Serf", "relayResponse", "relayResponse"},
-		}
-		var b strings.Builder
-		b.WriteString("-- GENERATED by /verif/extract from /repo/serf/{serf,event,query}.go — do not edit.\n")
-		b.WriteString("import SerfModel.Model.LimitSteps\nnamespace SerfModel.Gen.Limits\nopen SerfModel.LimitSteps\n\n")
-		files := map[string]*ast.File{}
-		fsets := map[string]*token.FileSet{}
-		for _, f := range fns {
-			if _, ok := files[f.file]; !ok {
-				fset, af, err := parseFile(repo + "/" + f.file)
-				if err != nil {
-					return "", err
-				}
-				files[f.file], fsets[f.file] = af, fset
-			}
-			fd := findFunc(files[f.file], f.recv, f.name)
-			if fd == nil {
-				return "", fmt.Errorf("%s.%s not found in %s", f.recv, f.name, f.file)
-			}
-			steps, err := limSteps(fsets[f.file], fd)
-			if err != nil {
-				return "", err
-			}
-			fmt.Fprintf(&b, "/-- %s: (%s).%s -/\ndef %s : List Step := [\n", f.file, f.recv, f.name, f.lean)
-			for i, s := range steps {
-				sep := ","
-				if i == len(steps)-1 {
-					sep = ""
-				}
-				fmt.Fprintf(&b, "  %s%s\n", s.lean(), sep)
-			}
-			b.WriteString("]\n\n")
-		}
-		c, err := limConst(files["serf/serf.go"], "UserEventSizeLimit")
-		if err != nil {
-			return "", err
-		}
-		fmt.Fprintf(&b, "/-- serf.go const UserEventSizeLimit -/\ndef userEventSizeLimitConst : Nat := %d\n\n", c)
-		// memberlist.MetaMaxSize is not in this repository; Create's own cap on the configured limit:
-		b.WriteString("end SerfModel.Gen.Limits\n")
-		return b.String(), nil
-	})
 }
